@@ -176,6 +176,120 @@ def abandoned_big_results():
     return ok
 
 
+def _child_square(conn, x):
+    conn.send(x * x)
+    conn.close()
+
+
+def nested_children():
+    """a functor that itself starts a child process (a nested pool, a subprocess helper): workers are ordinary processes that may
+    have children"""
+    import multiprocessing
+    from windpyutils.parallel.own_proc_pools import FunctorPool, FunctorWorker
+
+    class W(FunctorWorker):
+        def __call__(self, x):
+            a, b = multiprocessing.Pipe()
+            p = multiprocessing.Process(target=_child_square, args=(b, x))
+            p.start()
+            r = a.recv()
+            p.join()
+            return r
+
+    with FunctorPool([W() for _ in range(2)]) as pool:
+        got = list(pool.imap(iter(range(6)), 2))
+    if got != [x * x for x in range(6)]:
+        print(f"WRONG nested_children: {got}")
+        return False
+    return True
+
+
+def thread_handover():
+    """a call started in one thread (the generator is created and its first result taken there) and finished in another; then
+    another call from a third thread"""
+    import threading
+    ok = True
+    for factory in (False, True):
+        with make_pool(factory, 2, 2 if factory else None) as pool:
+            box = {}
+
+            def starter():
+                it = pool.imap(iter(range(7)), 2)
+                box["first"] = next(it)
+                box["it"] = it
+
+            t = threading.Thread(target=starter); t.start(); t.join()
+            rest = list(box["it"])
+
+            def later():
+                box["second"] = sorted(pool.imap_unordered(iter(range(5)), 1))
+
+            t2 = threading.Thread(target=later); t2.start(); t2.join(20)
+            if [box.get("first")] + rest != [fun("plain", x) for x in range(7)] or box.get("second") != sorted(fun("plain", x) for x in range(5)):
+                print(f"WRONG thread_handover (factory={factory}): first {box.get('first')}, rest {rest}, second call {box.get('second')}")
+                ok = False
+    return ok
+
+
+def exit_with_running_worker():
+    """the program ends right after a pool with a finite join_timeout was left while a worker is still busy with its last item:
+    the worker still finishes and runs end() (it is not killed with the parent)"""
+    import subprocess
+    import tempfile
+    d = tempfile.mkdtemp(prefix="c04exit_", dir=os.environ.get("VERIF_SCRATCH") or None)
+    marker = os.path.join(d, "events")
+    code = (
+        "import sys, time\n"
+        f"sys.path.insert(0, {REPO!r})\n"
+        "from windpyutils.parallel.own_proc_pools import FunctorPool, FunctorWorker\n"
+        "class W(FunctorWorker):\n"
+        "    def begin(self):\n"
+        f"        open({marker!r}, 'a').write('begin\\n')\n"
+        "    def __call__(self, x):\n"
+        "        if x == 1:\n"
+        "            time.sleep(1.5)\n"
+        "        return x\n"
+        "    def end(self):\n"
+        f"        open({marker!r}, 'a').write('end\\n')\n"
+        "with FunctorPool([W()], join_timeout=0.1) as pool:\n"
+        "    it = pool.imap(iter([0, 1]), 1)\n"
+        "    print(next(it))\n"
+    )
+    try:
+        p = subprocess.run([sys.executable, "-c", code], stdout=subprocess.PIPE, stderr=subprocess.STDOUT, text=True, timeout=30)
+        time.sleep(0.3)
+        events = open(marker).read().split() if os.path.exists(marker) else []
+    finally:
+        import shutil
+        shutil.rmtree(d, ignore_errors=True)
+    if events != ["begin", "end"]:
+        print(f"WRONG exit_with_running_worker: the worker's events are {events} after the program has ended (output: {p.stdout[-200:]!r})")
+        return False
+    return True
+
+
+def long_reorder():
+    """an ordered call whose first element is slow while some fifteen hundred later chunks finish: all of them wait in the reorder
+    buffer and are handed over in one go when the first arrives"""
+    import math
+    from windpyutils.parallel.own_proc_pools import FunctorPool, FunctorWorker
+
+    class W(FunctorWorker):
+        def __call__(self, x):
+            if x == 0:
+                time.sleep(1.5)
+            return x * 2 + 1
+
+    n = 1600
+    with FunctorPool([W() for _ in range(3)], results_queue_maxsize=None) as pool:
+        got = list(pool.imap(iter(range(n)), 1))
+    if got != [x * 2 + 1 for x in range(n)]:
+        print(f"WRONG long_reorder: {len(got)} results, first differing position "
+              f"{next((i for i, (a, b) in enumerate(zip(got, range(1, 2 * n, 2))) if a != b), len(got))}")
+        return False
+    return True
+
+
 def join_timeout_zero():
     """join_timeout=0 means "do not wait for a worker at all": with workers whose end() takes six seconds, a call that needs
     replacements and the leaving of the context are over long before any end() has finished"""
@@ -262,7 +376,8 @@ SpawnWorker = _ctx_worker("spawn")
 SpawnWorker.__name__ = SpawnWorker.__qualname__ = "SpawnWorker"
 
 
-EXTRA = {"join_timeout_zero": join_timeout_zero, "abandoned_big_results": abandoned_big_results, "other_start_methods": other_start_methods, "two_pools_interleaved": two_pools_interleaved, "from_thread": from_thread, "low_fd_limit": low_fd_limit}
+EXTRA = {"nested_children": nested_children, "thread_handover": thread_handover,
+         "exit_with_running_worker": exit_with_running_worker, "long_reorder": long_reorder, "join_timeout_zero": join_timeout_zero, "abandoned_big_results": abandoned_big_results, "other_start_methods": other_start_methods, "two_pools_interleaved": two_pools_interleaved, "from_thread": from_thread, "low_fd_limit": low_fd_limit}
 
 
 def main(name):
